@@ -25,7 +25,7 @@ SCRATCH = os.path.join(ROOT, ".scratch")
 
 INVARIANTS = ["C01_NoFalseAlarm", "C02a_MustReject", "C02b_EveryIndexReachable", "C02c_NonRandomFirst",
               "C02d_AcceptedIsWeak", "C02e_IgnorableAcceptsAll", "Lemma_SatOrder", "Lemma_DrawAbstraction",
-              "Lemma_StretchClosure"]
+              "Lemma_StretchClosure", "C09_ReadBound", "C10_NoForbiddenOp"]
 
 CFG = """SPECIFICATION Spec
 CONSTANTS
